@@ -104,13 +104,10 @@ func c01Check(c h.EdCase) h.Result {
 		r.Class("expanded-key:error")
 	}
 	if !keyPanic {
-		// The constructor decodes the key: it must succeed for a decodable
-		// key (otherwise the expanded API rejects what the plain API may
-		// accept) and the resulting key must carry the bytes as sent.
 		r.Eval(1)
-		if facts.A.OK && eerr != nil {
-			r.Fail("ed25519.NewExpandedPublicKey:rejects-decodable-key", "%s err=%v", in(), eerr)
-		}
+		// The expanded key must carry the bytes as sent.  (That a key the
+		// constructor refuses is rejected by plain verification under every
+		// flag set is asserted after the flag loop.)
 		if epk != nil {
 			cy := epk.CompressedY()
 			if !bytes.Equal(cy[:], pk) {
@@ -138,7 +135,7 @@ func c01Check(c h.EdCase) h.Result {
 		r.Eval(1)
 		switch {
 		case wantPanic && !got.panicked:
-			r.Fail("ed25519."+fn+":documented-panic-missing", "%s config=%s returned %v", cfg, in(), got.ok)
+			r.Fail("ed25519."+fn+":documented-panic-missing", "config=%s %s returned %v", cfg, in(), got.ok)
 		case !wantPanic && got.panicked:
 			r.Fail("ed25519."+fn+":undocumented-panic", "config=%s %s panic=%v", cfg, in(), got.pv)
 		case wantPanic:
@@ -173,6 +170,11 @@ func c01Check(c h.EdCase) h.Result {
 		if r.Failed() {
 			return r.Result()
 		}
+	}
+
+	if eerr != nil && accepts > 0 {
+		r.Fail("ed25519.NewExpandedPublicKey:refuses-key-the-plain-API-accepts", "%s err=%v", in(), eerr)
+		return r.Result()
 	}
 
 	// ---- presets
@@ -275,11 +277,11 @@ func TestC01Verify(t *testing.T) { h.Run(t, h.GenEdCase, c01Check) }
 // outcome is the panic (same check function, different generator).
 func TestC01Panics(t *testing.T) { h.Run(t, h.GenEdPanicCase, c01Check) }
 
-// TestC01SmallOrderMatrix enumerates every encoding of every small-order
-// point as A and as R (14 x 14 strings) with S in {0, L} and two messages per
-// variant, plus every non-canonical point string as A and as R against an
+// c01MatrixCases enumerates every encoding of every small-order point as A
+// and as R (14 x 14 strings) with S = 0 under four variant/message choices and
+// with S = L, plus every non-canonical point string as A and as R against an
 // honest counterpart.  Deterministic: identical at every seed.
-func TestC01SmallOrderMatrix(t *testing.T) {
+func c01MatrixCases() []h.EdCase {
 	encs, _ := h.EdSmallOrderEncodings()
 	var cases []h.EdCase
 	zero := make([]byte, 32)
@@ -304,7 +306,7 @@ func TestC01SmallOrderMatrix(t *testing.T) {
 						continue
 					}
 					cases = append(cases, h.EdCase{Ph: v.ph, Ctx: h.Hex(v.ctx), PK: h.Hex(a), Msg: h.Hex(v.msg),
-						Sig: h.Hex(append(append([]byte(nil), rr...), s...)),
+						Sig:    h.Hex(append(append([]byte(nil), rr...), s...)),
 						KeyCls: "small/enum", SigCls: "smallR/enum", SCls: []string{"S=0", "S=L"}[si], ModCls: "none"})
 				}
 			}
@@ -327,7 +329,7 @@ func TestC01SmallOrderMatrix(t *testing.T) {
 	msg := []byte("c01 non-canonical strings")
 	for _, s := range strs {
 		// as A: signature R = [7]B, S = 7 (valid iff [k]A is small order)
-		sg := append(ref.MulBase(ref.FromLE([]byte{7})).Encode(), ref.ToLE(ref.FromLE([]byte{7}), 32)...)
+		sg := append(ref.MulBase(ref.FromLE([]byte{7})).Encode(), ref.ToLE(ref.FromLE([]byte{7}), 32)...) // R = [7]B, S = 7
 		cases = append(cases, h.EdCase{PK: h.Hex(s), Msg: h.Hex(msg), Sig: h.Hex(sg), Ctx: h.Hex{},
 			KeyCls: "noncanon/enum", SigCls: "honest", SCls: "valid", ModCls: "none"})
 		// as R with S = k*a: valid iff R is small order (and the flags admit it)
@@ -336,5 +338,22 @@ func TestC01SmallOrderMatrix(t *testing.T) {
 		cases = append(cases, h.EdCase{PK: h.Hex(hpk), Msg: h.Hex(msg), Sig: h.Hex(sg), Ctx: h.Hex{},
 			KeyCls: "honest", SigCls: "noncanonR/enum", SCls: "valid", ModCls: "none"})
 	}
-	h.RunList(t, cases, c01Check)
+	return cases
 }
+
+func c01MatrixPart(t *testing.T, part, parts int) {
+	var sel []h.EdCase
+	for i, c := range c01MatrixCases() {
+		if i%parts == part {
+			sel = append(sel, c)
+		}
+	}
+	h.RunList(t, sel, c01Check)
+}
+
+// The enumeration is split over four tests only so that the driver can run
+// the parts as parallel processes; together they cover c01MatrixCases().
+func TestC01SmallOrderMatrix0(t *testing.T) { c01MatrixPart(t, 0, 4) }
+func TestC01SmallOrderMatrix1(t *testing.T) { c01MatrixPart(t, 1, 4) }
+func TestC01SmallOrderMatrix2(t *testing.T) { c01MatrixPart(t, 2, 4) }
+func TestC01SmallOrderMatrix3(t *testing.T) { c01MatrixPart(t, 3, 4) }
